@@ -952,7 +952,7 @@ pub mod c16omit {
 pub mod c01b {
     #[derive(Clone, PartialEq)]
     pub struct JsValue(pub f64);
-    pub enum Op { StrictEq { dst: u8, l: u8, r: u8 }, GetVar { dst: u8, name: u16 }, Nop }
+    pub enum Op { StrictEq { dst: u8, l: u8, r: u8 }, GetVar { dst: u8, name: u16 }, DeclareVar { name: u16, init: u8 }, Nop }
     pub struct Placeholder(pub usize);
     pub struct Builder { pub code: Vec<Op> }
     impl Builder {
@@ -961,6 +961,15 @@ pub mod c01b {
         pub fn emit_jump_if_true(&mut self, _r: u8) -> Placeholder { Placeholder(self.emit(Op::Nop)) }
         pub fn emit_jump_to(&mut self, _t: usize) { self.emit(Op::Nop); }
         pub fn patch_jump(&mut self, _p: Placeholder) {}
+        pub fn free_register(&mut self, _r: u8) {}
+    }
+    impl Compiler {
+        /// BAD (R27): released in allocation order
+        pub fn bad_release(&mut self, regs: Vec<(u16, u8)>) { for (_, r) in regs { self.builder.free_register(r); } }
+        /// GOOD (R27)
+        pub fn good_release(&mut self, regs: Vec<(u16, u8)>) { for (_, r) in regs.into_iter().rev() { self.builder.free_register(r); } }
+        /// GOOD (R27): popped
+        pub fn good_release_pop(&mut self, mut regs: Vec<u8>) { while let Some(r) = regs.pop() { self.builder.free_register(r); } }
     }
     pub struct Compiler { pub builder: Builder, pub redirects: Vec<(u16, u8)>, pub cont: usize }
     impl Compiler {
@@ -972,24 +981,31 @@ pub mod c01b {
             for (n, r) in regs { self.builder.emit(Op::GetVar { dst: *r, name: *n }); }
             let c = self.builder.code.len();
             self.set_continue_target(c);
-            if let Some(u) = update {
-                self.set_loop_var_redirects(regs.to_vec());
-                self.compile_expression(u);
-            }
+            for (n, r) in regs { self.builder.emit(Op::DeclareVar { name: *n, init: *r }); }
+            if let Some(u) = update { self.compile_expression(u); }
             self.builder.emit_jump_to(start);
         }
-        /// GOOD (R10): `continue` lands on the refresh; the copy of the initial values precedes the body
+        /// GOOD (R10): `continue` lands on the refresh; the copy of the initial values precedes the body; the update runs in the fresh scope
         pub fn good_for_continue(&mut self, regs: &[(u16, u8)], body: &u32, update: Option<&u32>) {
             for (n, r) in regs { self.builder.emit(Op::GetVar { dst: *r, name: *n }); }
+            for (n, r) in regs { self.builder.emit(Op::DeclareVar { name: *n, init: *r }); }
             let start = self.builder.code.len();
             self.compile_statement_impl(body);
             let c = self.builder.code.len();
             self.set_continue_target(c);
             for (n, r) in regs { self.builder.emit(Op::GetVar { dst: *r, name: *n }); }
-            if let Some(u) = update {
-                self.set_loop_var_redirects(regs.to_vec());
-                self.compile_expression(u);
-            }
+            for (n, r) in regs { self.builder.emit(Op::DeclareVar { name: *n, init: *r }); }
+            if let Some(u) = update { self.compile_expression(u); }
+            self.builder.emit_jump_to(start);
+        }
+        /// BAD (R10): the update is compiled in the old scope, before the variables are declared afresh
+        pub fn bad_for_update_first(&mut self, regs: &[(u16, u8)], body: &u32, update: Option<&u32>) {
+            for (n, r) in regs { self.builder.emit(Op::DeclareVar { name: *n, init: *r }); }
+            let start = self.builder.code.len();
+            self.compile_statement_impl(body);
+            for (n, r) in regs { self.builder.emit(Op::GetVar { dst: *r, name: *n }); }
+            if let Some(u) = update { self.compile_expression(u); }
+            for (n, r) in regs { self.builder.emit(Op::DeclareVar { name: *n, init: *r }); }
             self.builder.emit_jump_to(start);
         }
         fn compile_statement_impl(&mut self, _s: &u32) {}
@@ -1053,10 +1069,8 @@ pub mod c01b {
             let start = self.builder.code.len();
             self.compile_statement_impl(body);
             for (n, r) in regs { self.builder.emit(Op::GetVar { dst: *r, name: *n }); }
-            if let Some(u) = update {
-                self.set_loop_var_redirects(regs.to_vec());
-                self.compile_expression(u);
-            }
+            for (n, r) in regs { self.builder.emit(Op::DeclareVar { name: *n, init: *r }); }
+            if let Some(u) = update { self.compile_expression(u); }
             self.builder.emit_jump_to(start);
         }
     }
